@@ -1453,12 +1453,17 @@ func ruleCP6(c *Ctx) *rule {
 	// expansion precedes the loop: in the function that holds the loop (helpers are inlined by the canonicaliser) or in
 	// file.(*SpokFile).Run on the way to it
 	isExpansion := func(site ssa.CallInstruction) bool {
-		if calleeName(site.Common()) == "github.com/bmatcuk/doublestar/v4.GlobWalk" {
+		if globPrimitives[calleeName(site.Common())] {
 			return true
 		}
 		for _, callee := range c.callees(site) {
-			if inModule(callee) && c.reachesCallee(callee, "github.com/bmatcuk/doublestar/v4.GlobWalk") && c.storesField(callee, "file.SpokFile.Globs") {
-				return true
+			if !inModule(callee) || !c.storesField(callee, "file.SpokFile.Globs") {
+				continue
+			}
+			for prim := range globPrimitives {
+				if c.reachesCallee(callee, prim) {
+					return true
+				}
 			}
 		}
 		return false
@@ -1487,7 +1492,17 @@ func ruleCP6(c *Ctx) *rule {
 			}
 		}
 	}
-	if dom == nil {
+	anyPrimitive := false
+	for _, f := range c.ModFuncs {
+		for _, site := range callSites(f) {
+			if globPrimitives[calleeName(site.Common())] {
+				anyPrimitive = true
+			}
+		}
+	}
+	if dom == nil && !anyPrimitive {
+		r.undecided(key, c.ipos(rl.X), "the module calls none of the glob primitives the checker knows (doublestar.GlobWalk/Glob/FilepathGlob, filepath.Glob, fs.Glob): how patterns are expanded is unknown")
+	} else if dom == nil {
 		r.bad(key, c.ipos(rl.X), "no glob expansion into SpokFile.Globs dominates the run loop: glob dependencies would hash as the empty list")
 	} else {
 		okErr := true
@@ -1504,6 +1519,15 @@ func ruleCP6(c *Ctx) *rule {
 		}
 	}
 	return r
+}
+
+// globPrimitives: library calls that expand a pattern into paths.
+var globPrimitives = map[string]bool{
+	"github.com/bmatcuk/doublestar/v4.GlobWalk":     true,
+	"github.com/bmatcuk/doublestar/v4.Glob":         true,
+	"github.com/bmatcuk/doublestar/v4.FilepathGlob": true,
+	"path/filepath.Glob":                            true,
+	"io/fs.Glob":                                    true,
 }
 
 func isFieldLoad(v ssa.Value, key string) bool {
